@@ -19,7 +19,9 @@ let () =
                     c_max = (if String.length entry = 4 then z_of_int 1000 else BinNums.Z0); c_ext = false } in
           let m = K_reader.drive_model (c, false, true) bytes "-" "eof" "512" 8 in
           let me = K_reader.string_of_rerror m.Reader.dr_err in
-          if me <> detail then Diff ("model reader ends with " ^ me)
+          if me = "toolarge" && detail <> "toolarge" then
+            Viol "a frame announcing more than MaxFrameSize was not refused (or not before its payload was read)"
+          else if me <> detail then Diff ("model reader ends with " ^ me)
           else if List.length m.Reader.dr_events <> int_of_string nev then Diff "model reader event count differs"
           else Pass (List.length bytes > 2)
         end else Pass (String.length data > 4)
